@@ -15,8 +15,17 @@ class C11(LoopCheck):
 
     def configs(self, tier):
         out = super().configs(tier)
+        kept = []
         for c in out:
             c["routes"] = ["bytes", "live_dict"] if tier == "quick" else ["bytes", "dict", "live_dict", "file"]
+            if c["schedule"].startswith("adaptive") and tier != "quick":
+                # N = 3 adaptive runs are expensive: bytes / live-dict routes only,
+                # without the final-enlargement variant
+                if c["n_final"]:
+                    continue
+                c["routes"] = ["bytes", "live_dict"]
+            kept.append(c)
+        out = kept
         # the resume-from-file constructor: real Aspire.sample_posterior writes
         # config / flow / checkpoints to a real HDF5 file; Aspire.resume_from_file
         # rebuilds the instance and sample_posterior continues the run
